@@ -228,10 +228,11 @@ func c08QueueTie(c *Ctx, base string) {
 			val = append(val, c08RandBytes(c, c.Rnd.Intn(300))...)
 		}
 		flg := flagOf[ki]
-		if c.Rnd.Intn(40) == 0 {
-			flg = 6 // same key under another flag: delIndex panics on the mismatch
-			mixedFlags = true
-		}
+		// (until /repo 14469b9 one draw in 40 wrote the same key bytes under another flag: the index was keyed by the key bytes alone and
+		// delIndex panicked on the mismatch — which the index MODEL, keyed the same way, reproduced. The index is now keyed by flag and key;
+		// the model keeps its guard "one flag per key bytes" (OpOK), so mixed flags are no longer generated here. The crash itself — a
+		// contract whose code equals a trie node of the same block — is watched on the real engine by hx c15 (c15/panic/file-queue-flag-clash).)
+		_ = mixedFlags
 		return c08Rec{flg, keys[ki], val}
 	}
 	for seq := 0; seq < nSeq; seq++ {
